@@ -20,5 +20,14 @@ case "$prop" in C14) bins=/verif/bin/archesim_126,/verif/bin/archesim_126,/verif
 case "$prop" in
   C13|C18|C19) exec /verif/bin/archesim special "$prop" -tier "$tier" -seed "$seed" -evidence "$evdir/$prop.json";;
 esac
+if [ "$prop" = "C14" ]; then
+  /verif/bin/archesim run -prop "$prop" -tier "$tier" -seed "$seed" -bins "$bins" -level "$level" \
+    -evidence "$evdir/$prop.json" -known /verif/known_findings.json -out /verif/replays; rc=$?
+  secs=6; [ "$tier" = thorough ] && secs=60
+  /verif/bin/archesim special C14 -seed "$seed" -seconds $secs -procs 4 -evidence "$evdir/$prop.json"; rc2=$?
+  [ $rc = 1 ] || [ $rc2 = 1 ] && exit 1
+  [ $rc = 0 ] && [ $rc2 = 0 ] && exit 0
+  exit 2
+fi
 exec /verif/bin/archesim run -prop "$prop" -tier "$tier" -seed "$seed" -bins "$bins" -level "$level" \
   -evidence "$evdir/$prop.json" -known /verif/known_findings.json -out /verif/replays
